@@ -3,6 +3,7 @@ package layerr
 import (
 	"encoding/json"
 	"fmt"
+	"math"
 	"os"
 	"sort"
 
@@ -54,6 +55,7 @@ type C10Case struct {
 	Elems    []int  `json:",omitempty"` // slice elements / channel prefill / map values by key index
 	Nil      []bool `json:",omitempty"` // slice-any / map-any: element i is a nil interface
 	NilKey   bool   `json:",omitempty"` // map-any: one key is the nil interface
+	NaNKey   bool   `json:",omitempty"` // map-any: one key is NaN (not equal to itself: a lookup never finds it)
 	Cap      int    `json:",omitempty"`
 	Closed   bool   `json:",omitempty"` // chan: closed before the loop
 	Steps    []Step
@@ -130,6 +132,8 @@ func newWorld(c *C10Case) *world {
 			var k any = fmt.Sprintf("k%d", i)
 			if i == 0 && c.NilKey {
 				k = nil
+			} else if i == 1 && c.NaNKey {
+				k = math.NaN()
 			} else if i%3 == 1 {
 				k = i
 			}
@@ -203,6 +207,9 @@ func (w *world) apply(c *C10Case, m Mut, closed *bool) bool {
 			return false
 		}
 		k := w.keys[m.I]
+		if f, isF := k.(float64); isF && f != f {
+			return false // an entry with a NaN key can be neither found nor overwritten nor deleted
+		}
 		switch m.K {
 		case MSet:
 			if _, ok := w.mAny[k]; ok {
@@ -391,7 +398,7 @@ func mapInvariant(c *C10Case, h hist.H) string {
 			model[show(k)] = show(v)
 		}
 	} else {
-		for k, v := range w.mAny {
+		for k, v := range w.mAny { // (a NaN key is only reachable by ranging)
 			model[show(k)] = show(v)
 		}
 	}
@@ -568,6 +575,7 @@ func genC10(r *prng.R, kind string) *C10Case {
 			c.Nil = append(c.Nil, r.Chance(1, 3))
 		}
 		c.NilKey = r.Chance(1, 3)
+		c.NaNKey = r.Chance(1, 3)
 		c.Cap = r.Intn(3)
 		if kind == "map" && n == 0 && r.Bool() {
 			c.N = -1 // nil map
@@ -596,6 +604,7 @@ func C10(j *core.Job) {
 	for _, k := range c10Kinds {
 		rep.Count("kind_"+k, 0)
 	}
+	rep.Count("nan_map_keys", 0)
 	for _, k := range []string{"mutator_steps_applied", "strings_enumerated_exhaustively", "strings_with_invalid_utf8", "map_multi_entry_invariant_oracle", "map_single_entry_exact", "nil_interface_elements"} {
 		rep.Count(k, 0)
 	}
@@ -642,6 +651,9 @@ func C10(j *core.Job) {
 				if n {
 					rep.Count("nil_interface_elements", 1)
 				}
+			}
+			if c.NaNKey && kind == "map-any" && len(c.Elems) > 1 {
+				rep.Count("nan_map_keys", 1)
 			}
 			if kind == "map" || kind == "map-any" {
 				if len(c.Elems) > 1 {
